@@ -28,6 +28,8 @@ def opMoments (j : Json) : D Json := do
     sizes := sizes ++ [d.length]
     if i < nmax then
       if d.length > budget then break
+      -- stop when the values (polynomials over draw atoms) get large
+      if d.any (fun wp => wp.2.vals.any (fun xv => xv.2.length > 400)) then break
       d := (← d.bindM (iter P)).mergeFast
   -- transpose: per monomial the list over n
   let perMono := (List.range monos.length).map (fun i => rows.map (fun r => r.getD i 0))
